@@ -20,5 +20,15 @@ CLAIMED = {
         "A-NET: dns.resolver.resolve / dns.asyncresolver.resolve return a non-empty answer or raise DNSException; assumed builtin contract of sorted() (result is the input composed with a permutation and pairwise non-decreasing in the key); str.rstrip as an uninterpreted function.",
         "DESIGN 5 C20",
     ),
+    "C12": (
+        "Deductive proof per codec: pack of every PDU type the client uses (bind, bind_ack, bind_nak, alter_context, alter_context_resp, request with/without object UUID, response, fault), of the security trailer, verification-trailer commands, tower floors and ept_map request/reply is proved equal to a spec rope written from C706 / MS-RPCE (NDR64 alignment rules as linear facts over symbolic lengths), and PDU.unpack / unpack of those bytes is proved to return the encoded message (all scalars and byte lengths symbolic). Decoders on ARBITRARY bytes: VerificationTrailer.unpack, EptMapResult.unpack and PDU.unpack (client-side types) are proved to terminate with steps <= 2*len+c and bytes copied <= 2*len+c by loop invariants over a potential (steps + remaining bytes).",
+        "B (bounded in list length only, stated in contracts/c_rpc.py and c_epm.py): round trips are case-split over contexts <= 2 x syntaxes <= 2, results <= 3, versions <= 3, commands <= 3, request floors <= 2 (3 thorough), reply towers <= 2 x floors <= 1 (2 thorough); the work bound for bind/alter_context decoding (server-side PDUs) is not proved. Equality of known floors/commands is over class + declared fields + re-encoded bytes (they mirror raw lhs/rhs/value after decoding, by design). A-PY; UTF-8 codec uninterpreted with inverse law.",
+        "DESIGN 5 C12",
+    ),
+    "C18": (
+        "Deductive proof: for an arbitrary reply (any length, tower counts up to 2**64-1) EptMapResult.unpack does at most 2*len+16 steps and copies at most len+64 bytes (potential invariants on both loops; the tower count is proved bounded by len/8 after the guard); for well-formed replies all towers are decoded (NDR64 alignment for every tower length, known and unknown floor protocols) and _process_ept_map_result returns the TCP port of the first tower with a TCP floor, raising ValueError for a non-zero status or no TCP floor.",
+        "B in list length for the functional part only: towers <= 2 x floors <= 1 (quick) or 2 (thorough) with every payload length symbolic (so every tower-length residue mod 8 is covered). A-PY.",
+        "DESIGN 5 C18",
+    ),
 }
 NOT_CLAIMED = {}
